@@ -4,32 +4,39 @@ CONFIG = dict(
     level_text="Kernel-checked Lean theorems about a model of table/src/lib.rs for ALL well-formed cases and ALL finite histories "
                "of the twelve Table operations in both build profiles: route_stats (received / accepted per peer and family) equal "
                "the recount of the RIB at every reachable state, Table::state equals the recount and no destination is empty, no "
-               "statistics subtraction ever underflows (no panic in debug, no wrap in release); for histories outside the two "
-               "recorded open findings (Case.PlainLimits) the per-session limit counter equals the recount of the peer's prefixes "
-               "while the session is in progress, never wraps, and an accepted new prefix never takes the peer above its maximum; "
-               "the partial master theorem: the C15 reference checker accepts every such model run; the full-strength statement "
-               "C15_full is stated and REFUTED for the model by a concrete witness (the open finding).  The model is tied to the "
-               "real code by running the real Table and the model on the same generated histories (debug and release) and diffing "
-               "complete observations; the reference checker is the oracle on the real observations.",
+               "statistics subtraction ever underflows (no panic in debug, no wrap in release); the per-session limit counter "
+               "(repaired: kept per Source) equals the recount of the prefixes that session holds while the session is in "
+               "progress, never wraps, and an accepted prefix that is new to the session never takes it above its maximum; for "
+               "peers with a single session (Case.OneSession) the same holds per peer address and the partial master theorem says "
+               "the C15 reference checker accepts every such model run; the full-strength statement C15_full is stated and REFUTED "
+               "for the model by a concrete witness (the residual open finding: stale paths of a previous session are not counted "
+               "against the restarted session's limit).  The model is tied to the real code by running the real Table and the "
+               "model on the same generated histories (debug and release) and diffing complete observations; the reference "
+               "checker is the oracle on the real observations.",
     level_note="Trusted: Lean kernel; axioms propext/Classical.choice/Quot.sound; the hand-written model (checked only by the "
                "correspondence stream); harness glue, in particular the emulation of the daemon's calling convention for purges "
                "(prefix_counter = None, transcribed from daemon/src/table_manager.rs) next to purges that hand the counter over. "
                "Interpretation: accepted = paths that passed import policy (the repository's documented Add-Path semantics), "
-               "received and limit counter = prefixes with >= 1 path of the peer. OPEN known finding: a restarted session's fresh "
-               "counter vs inherited stale prefixes of the same peer (mismatch, later underflow / spurious limit signal).",
+               "received = prefixes with >= 1 path of the peer, limit counter of a session = prefixes with >= 1 path of that "
+               "session's Source, configured maximum judged per peer address. OPEN known finding (residual): during a GR/LLGR "
+               "helper cycle the stale paths of the previous session are not counted against the restarted session's limit.",
     lean_modules=["Rbgp.Rib.PropsC15", "Rbgp.Rib.PropsCodec"],
     theorems=[
         "Rbgp.Rib.PropsCodec.c15_check_run_ok_partial_of_codec",
         "Rbgp.Rib.PropsC15.check_run_ok_partial",
         "Rbgp.Rib.PropsC15.not_C15_full",
+        "Rbgp.Rib.PropsC15.inherited_stale_paths_witness",
         "Rbgp.Rib.PropsC15.stats_eq_recount",
+        "Rbgp.Rib.PropsC15.stats_absent",
         "Rbgp.Rib.PropsC15.state_eq_recount",
         "Rbgp.Rib.PropsC15.no_panic",
         "Rbgp.Rib.PropsC15.no_underflow",
-        "Rbgp.Rib.PropsC15.limit_counter_ge_recount_partial",
-        "Rbgp.Rib.PropsC15.limit_counter_eq_recount_partial",
-        "Rbgp.Rib.PropsC15.limit_enforced_partial",
+        "Rbgp.Rib.PropsC15.limit_counter_ge_recount",
+        "Rbgp.Rib.PropsC15.limit_counter_eq_recount",
+        "Rbgp.Rib.PropsC15.limit_enforced_session",
         "Rbgp.Rib.PropsC15.limit_signalled",
+        "Rbgp.Rib.PropsC15.sessCount_eq_recvCount",
+        "Rbgp.Rib.PropsC15.limit_enforced_partial",
     ],
     harness=dict(kind="pt", bin="c15"),
     profiles=["debug", "release"], profile_in_case=True,
@@ -52,8 +59,11 @@ CONFIG = dict(
                  "the limit counter of a session is judged from its first use until its peer is dropped, re-marked stale, or "
                  "purged without a counter (the daemon drops the counter with the session and only purges without a counter "
                  "when no session of the peer is counting)",
-                 "Case.PlainLimits for the partial theorems: a limited session is the only source of its peer address, purges "
-                 "are handed no counter or that session's counter, fewer than 2^63 operations"],
+                 "one session of a peer is established at a time (C07): between two session ends of (address, family) only one "
+                 "Source of that address announces or withdraws; a purge is handed a counter only of the purged peer's only "
+                 "session (both codecs reject other cases as bad-case)",
+                 "Case.Short (< 2^63 operations) for the counter theorems; Case.OneSession (a limited session is the only "
+                 "source of its peer address) for the per-address limit clause and the partial master theorem"],
     claimed=True,
 )
 
